@@ -15,6 +15,8 @@ import (
 	"strconv"
 	"testing/iotest"
 
+	"github.com/klauspost/compress/zstd"
+
 	"github.com/fluhus/biostuff/formats/fasta"
 	"github.com/fluhus/biostuff/formats/fastq"
 	"github.com/fluhus/biostuff/formats/newick"
@@ -240,6 +242,18 @@ func deliveryDrive(args []string) error {
 			}
 			emit("cfg", "file-plain", func(v func(gItem) bool) (int, bool) { return fd.file(plain, v) })
 			emit("cfg", "file-gz", func(v func(gItem) bool) (int, bool) { return fd.file(gz, v) })
+			// beyond the listed property: the other suffix the opener decompresses and that can be produced offline (.zst)
+			zst := filepath.Join(tmp, "in"+strconv.Itoa(sid)+".txt.zst")
+			zb2 := &bytes.Buffer{}
+			if zw2, err := zstd.NewWriter(zb2); err == nil {
+				zw2.Write(in.Data)
+				zw2.Close()
+				if err := os.WriteFile(zst, zb2.Bytes(), 0o644); err != nil {
+					return err
+				}
+				emit("cfg", "file-zst", func(v func(gItem) bool) (int, bool) { return fd.file(zst, v) })
+				os.Remove(zst)
+			}
 			if ii == 0 {
 				emit("missing", "file-missing", func(v func(gItem) bool) (int, bool) { return fd.file(filepath.Join(tmp, "nope", "missing.txt"), v) })
 			}
